@@ -524,8 +524,9 @@ def rec_enc(node, src):
             i += 1
         elif isinstance(st, ast.If) and up(st.test) == "field.raw_value is not None":
             b, o = [up(x) for x in st.body], [up(x) for x in st.orelse]
-            if b == ["field_value = field.raw_value"] and o == ["assert isinstance(field.value, date)", "field_value = encode_date(field.value)"]:
-                kind = ("date",)
+            md = re.fullmatch(r"field_value = encode_date\(field\.value, (\d+)\)", o[1]) if len(o) == 2 else None
+            if b == ["field_value = field.raw_value"] and md and o[0] == "assert field.value is None or isinstance(field.value, date)":
+                kind = ("date", int(md.group(1)))
             elif (len(b) == 2 and b[0] == "assert isinstance(field.raw_value, (int, float))" and len(o) == 2
                   and o[0] == "assert field.value is None or isinstance(field.value, time)"):
                 dv = st.body[1]
@@ -570,6 +571,8 @@ def lean_enc_kind(k):
         return f"(.time {llit(k[1])} {k[2]} {lbool(k[3])})"
     if k[0] == "lookup":
         return f"(.lookup {lstr(k[1])})"
+    if k[0] == "date":
+        return f"(.date {k[1]})"
     if k[0] == "unsupported":
         return f"(.unsupported {lstr(k[1])})"
     return f".{k[0]}"
